@@ -44,11 +44,11 @@ class C04(Prop):
                   {"op": "try_restart_with_signal", "sig": "Terminate", "grace": 50}]
         starters = [{"op": "start"}, {"op": "restart"}, {"op": "try_restart"}]
         for a, b in itertools.product(enders, starters):
-            for gap in (0, 100, 2500, 4000):
+            for gap, kd in ((0, 3000), (100, 3000), (2500, 3000), (4000, 3000), (0, 45000), (20000, 45000)):
                 ops = [{"at": 0, "op": "start", "yield": True}, dict(a, at=50, **{"yield": True}), dict(b, at=50 + gap, **{"yield": True})]
-                child = {"self_exit": None, "ignore_all": True, "kill_delay": 3000}
+                child = {"self_exit": None, "ignore_all": True, "kill_delay": kd}
                 slow.append({"id": 0, "monitor_only": "slow-death", "script": {"children": [child, dict(child)], "spawn_fail": [], "signal_fail": [], "kill_fail": []},
-                             "ops": ops, "waiters": 1, "tail": 8000})
+                             "ops": ops, "waiters": 1, "tail": 8000 + kd})
         c = job_check(self, "thorough" if deep else tier, seed, monitor, slow)
         if not c.errors:
             mt_check(c, "c04", seed, 24 if tier == "quick" and not deep else 300, mt_monitor_overlap)
